@@ -47,7 +47,7 @@ Judge(r) ==
       div |-> {w \in ws : g(w) # s.got[w]},
       progress |-> {w \in ws : ~ProgressNotBehind(s, w, g(w))},
       quiescent |-> Quiescent(s), lagged |-> s.lost # {},
-      cancelled |-> {w \in ws : Cancelled(g(w))},
+      cancelled |-> {w \in ws : Cancelled(g(w))}, mcancelled |-> {w \in ws : Cancelled(s.got[w])},
       delivered |-> [w \in ws |-> Len(g(w))]]
 
 TInit == l = 0 /\ out = <<>> /\ st = Init0 /\ sched = <<>>
